@@ -173,12 +173,22 @@ MUTANTS = {
     ],
     "C20": [
         {"name": "revert_fix_color_cache", "kind": "revert", "commit": "8f4182c"},
-        {"name": "revert_fix_dict_aliasing", "kind": "revert", "commit": "1507b76"},
+        # 1507b76 (caller's style dictionaries) cannot be reverse-applied any more (082e3ec rewrote the same lines
+        # of magic_to_dict): its parts as substitutions
+        {"name": "ctor_keeps_callers_style_dict", "kind": "sub", "file": BG,
+         "old": "        if isinstance(style, dict):\n            style = deepcopy(style)\n        if kwargs:\n",
+         "new": "        if kwargs:\n"},
+        {"name": "magic_to_dict_merges_in_place", "kind": "sub", "file": DU,
+         "old": "    merged = dict(first)\n",
+         "new": "    merged = first\n"},
         {"name": "revert_fix_dict_assignment_merge", "kind": "revert", "commit": "0497686"},
         {"name": "revert_fix_style_reset", "kind": "revert", "commit": "f3dd4e6"},
         {"name": "revert_fix_label_key", "kind": "revert", "commit": "282ec0a"},
         {"name": "revert_fix_tricoll_traces", "kind": "revert", "commit": "d85c7fa"},
         {"name": "revert_fix_alias", "kind": "revert", "commit": "0b26a89"},
+        {"name": "magic_copy_is_shallow", "kind": "sub", "file": "magpylib/_src/defaults/defaults_utility.py",
+         "old": "        \"\"\"returns a copy of the current class instance\"\"\"\n        return deepcopy(self)\n",
+         "new": "        \"\"\"returns a copy of the current class instance\"\"\"\n        import copy as _copy\n\n        return _copy.copy(self)\n"},
         {"name": "reset_merges_into_current_values", "kind": "sub", "file": "magpylib/_src/defaults/defaults_classes.py",
          "old": "        for key, val in get_defaults_dict().items():\n            setattr(self, key, None)\n            setattr(self, key, val)\n",
          "new": "        self.update(get_defaults_dict(), _match_properties=False)\n"},
@@ -202,8 +212,9 @@ MUTANTS = {
          "old": "    for obj_family in obj_families:\n        family_style = getattr(default_style, obj_family, {})\n",
          "new": "    for obj_family in reversed(obj_families):\n        family_style = getattr(default_style, obj_family, {})\n"},
         {"name": "magic_to_dict_later_dict_replaces_earlier_entries", "kind": "sub", "file": DU,
-         "old": "            new_kwargs[keys[0]] = {**new_kwargs[keys[0]], **val}\n",
-         "new": "            new_kwargs[keys[0]] = dict(val) if len(keys) == 1 else {**new_kwargs[keys[0]], **val}\n"},
+         "old": "            new_kwargs[keys[0]] = _merge_dicts(new_kwargs[keys[0]], val)\n",
+         "new": "            new_kwargs[keys[0]] = dict(val) if len(keys) == 1 else _merge_dicts(new_kwargs[keys[0]], val)\n"},
+        {"name": "revert_fix_deep_merge", "kind": "revert", "commit": "082e3ec"},
         {"name": "copy_shares_style_with_original", "kind": "sub", "file": BG,
          "old": "            obj_copy.style.label = label\n",
          "new": "            obj_copy.style.label = label\n            obj_copy.style.path = self.style.path\n"},
@@ -348,7 +359,7 @@ def cmd_seeded(args, home):
     results = []
     for sid in ids:
         meta = json.load(open(os.path.join(root, sid, "meta.json")))
-        prop = meta["property"]
+        prop = meta.get("check", meta["property"])  # a change can break a sibling property's clause
         base, dst = make_scratch()
         try:
             # patch.diff is relative to the commit the sub-agent worked on (meta.json); when later repairs
